@@ -75,7 +75,7 @@ func run(c *hl.Ctx) error {
 		return emit(c, int64(in["pseed"].(float64)), in["perturb"].(bool), sc)
 	}
 	r := c.Rand()
-	n := c.Pick(40, 1500)
+	n := c.Pick(40, 600)
 	if c.Search && c.Tier != "thorough" {
 		n = 160 // a proof or the correspondence broke: search longer than the quick tier, not the whole thorough budget
 	}
